@@ -486,6 +486,20 @@ Proof.
     destruct m; cbn [negb andb division_result_type is_float_value orb]; fin_iff.
 Qed.
 
+(** on integer-variant operands (no float involved) [/] never panics, in either mode *)
+Theorem divide_int_no_panic m l r a b x :
+  to_Z l = Some a -> to_Z r = Some b -> divide m l r <> Panic x.
+Proof.
+  intros Hl Hr H. apply divide_panic_iff in H as [_ C]. unfold div_unreachable_class in C.
+  destruct l; cbn [to_Z] in Hl; try discriminate; destruct r; cbn [to_Z] in Hr; try discriminate;
+    unfold coerce_numeric_values in C;
+    cbn [is_null orb negb andb is_boolean is_exact_numeric boolean_to_i64 to_i64 opt_or is_float_value] in C;
+    repeat match type of C with context [match ?bb with true => _ | false => _ end] => destruct bb end;
+    cbn [opt_or coerced_right_is_zero] in C;
+    repeat match type of C with context [if ?c then _ else _] => destruct c end;
+    try destruct m; cbn in C; rewrite ?andb_false_r in C; discriminate.
+Qed.
+
 (** [CAST(1.5 AS FLOAT) / 2] in the default (MySQL) mode; [TRUE / 1.5] in SQLite mode *)
 Lemma divide_no_panic_refuted :
   divide MySQL (VFloat 1069547520) (VInteger 2) = Panic PUnreachable /\
